@@ -55,7 +55,7 @@ def c09(ctx: Ctx):
     ctx.assumptions = [
         "TLC and the CommunityModules (Json, CSV, SequencesExt, FiniteSetsExt)",
         "spec/Router.tla Failed() as the transcription of the C09 statement; path segments, literals, host labels and values are "
-        "atomic strings in wire form (no regex/wildcard path syntax, no '/' template; the few percent-encoded strings are decoded "
+        "atomic strings in wire form (no regex/wildcard path syntax; the root template '/' is one literal empty segment; the few percent-encoded strings are decoded "
         "by table: a returned value may be the wire or the decoded text, an encoded slash is data, not a separator; query and "
         "fragment are not part of the path); variables inside a segment "
         "(/v{n}, /files/report.{ext}, /{p}-{q}) are matched through the self-checked character dictionary Router!Cs and are "
@@ -135,7 +135,7 @@ def c09(ctx: Ctx):
     ctx.extra["documents"] = len(docs)
     ctx.rule = ("documents = template families over segments {a, b, {var}} -- plus a 'mixed' universe of 11 templates with variables "
                 "inside a segment and their literal / plain-variable competitors (/v{n}, /v1, /{x}, /files/report.{ext}, "
-                "/files/report.pdf, /files/{x}, /{p}-{q}, /a-b, /v{n}/a, /v1/{x}, /a/v{n}) -- with a method set per template (GET, POST or both), crossed "
+                "/files/report.pdf, /files/{x}, /{p}-{q}, /a-b, /v{n}/a, /v1/{x}, /a/v{n}) -- and a 'root' universe with the template '/' next to /a, /{x}, /a/{x} -- with a method set per template (GET, POST or both), crossed "
                 "with 11 server shapes (none; relative; relative with trailing slash; '/'; absolute; absolute with host and port "
                 "variables; two absolute servers; path-level servers on the first / the last template; two servers whose base "
                 "paths are /v1 and /v10, relative and absolute), enumerated by TLC "
